@@ -48,4 +48,121 @@ def r18_name_for_iter(text, log):
     return apply_edits(text, edits)
 
 
-RULES = {"R18": r18_name_for_iter}
+
+
+def r4v_windows_any(text, log):
+    """R4v  `E.windows(K).any(|w| B)`  ->  `{ let mut vx_any = false; let mut vx_wi: usize = 0;
+              while vx_wi < E.len() && E.len() - vx_wi >= K { let w = &E[vx_wi..vx_wi + K]; if B { vx_any = true; break; } vx_wi += 1; } vx_any }`
+    Definitional for slices / Vec: `windows(K)` yields `&E[0..K], &E[1..K+1], …` while they fit, `Iterator::any` applies the closure
+    in that order and stops at the first `true`.  E must be a plain path (identifier / field path), K a literal, the closure a single
+    identifier parameter and an expression body without `return`."""
+    while True:
+        st = sig(lex(text))
+        done = True
+        for i, t in enumerate(st):
+            if not (t.text == "." and i + 2 < len(st) and st[i + 1].text == "windows" and st[i + 2].text == "("):
+                continue
+            c = match_close(st, i + 2)
+            if c != i + 4 or st[i + 3].kind != "num":
+                continue
+            if not (st[c + 1].text == "." and st[c + 2].text == "any" and st[c + 3].text == "("):
+                continue
+            c2 = match_close(st, c + 3)
+            if not (st[c + 4].text == "|" and st[c + 5].kind == "ident" and st[c + 6].text == "|"):
+                raise RewriteError("R4v: unsupported closure parameter")
+            body = text[st[c + 7].start:st[c2 - 1].end]
+            if "return" in [x.text for x in st[c + 7:c2]]:
+                raise RewriteError("R4v: closure with return")
+            # receiver path: ident (. ident)* ending right before st[i]
+            j = i - 1
+            if st[j].kind != "ident":
+                raise RewriteError("R4v: receiver is not a plain path")
+            while j - 2 >= 0 and st[j - 1].text == "." and st[j - 2].kind == "ident":
+                j -= 2
+            e = text[st[j].start:st[i - 1].end]
+            k = st[i + 3].text
+            w = st[c + 5].text
+            new = ("{ let mut vx_any = false; let mut vx_wi: usize = 0; while vx_wi < %s.len() && %s.len() - vx_wi >= %s { let %s = &%s[vx_wi..vx_wi + %s]; "
+                   "if %s { vx_any = true; break; } vx_wi += 1; } vx_any }") % (e, e, k, w, e, k, body)
+            text = text[:st[j].start] + new + text[st[c2].end:]
+            log["R4v windows-any -> while loop"] = log.get("R4v windows-any -> while loop", 0) + 1
+            done = False
+            break
+        if done:
+            return text
+
+
+def r4i_for_next(text, log):
+    """R4i  `for PAT in EXPR { B }` (unlabelled, not a range)  ->  `{ let mut vx_itK = (EXPR).into_iter(); loop { let PAT = match
+    vx_itK.next() { Some(vx_x) => vx_x, None => break, }; B } }`   — the desugaring of `for` in the Rust reference, for iterators
+    that have no Verus specification (e.g. `std::fs::ReadDir`).  `continue`/`break` in B keep their meaning (same loop)."""
+    k = 0
+    while True:
+        st = sig(lex(text))
+        done = True
+        for i, t in enumerate(st):
+            if not (t.kind == "ident" and t.text == "for"):
+                continue
+            if i + 1 < len(st) and st[i + 1].text == "<":
+                continue
+            if i > 0 and st[i - 1].text == ":" and i > 1 and st[i - 2].kind == "lifetime":
+                raise RewriteError("R4i: labelled for loop")
+            j = i + 1
+            in_idx = None
+            while j < len(st):
+                x = st[j]
+                if x.kind == "punct" and x.text in "([":
+                    j = match_close(st, j) + 1
+                    continue
+                if x.kind == "ident" and x.text == "in":
+                    in_idx = j
+                    break
+                j += 1
+            b = in_idx + 1
+            while st[b].text != "{":
+                if st[b].kind == "punct" and st[b].text in "([":
+                    b = match_close(st, b) + 1
+                    continue
+                b += 1
+            expr_toks = [x.text for x in st[in_idx + 1:b]]
+            if "." in expr_toks and expr_toks.count(".") >= 2 and ".." in "".join(expr_toks):
+                continue  # a range: leave to Verus / R4c
+            c = match_close(st, b)
+            k += 1
+            pat = text[st[i + 1].start:st[in_idx - 1].end]
+            expr = text[st[in_idx + 1].start:st[b - 1].end]
+            body = text[st[b].end:st[c].start]
+            new = "{ let mut vx_it%d = (%s).into_iter(); loop { let %s = match vx_it%d.next() { Some(vx_x) => vx_x, None => break, }; %s } }" % (k, expr, pat, k, body)
+            text = text[:t.start] + new + text[st[c].end:]
+            log["R4i for -> loop + next"] = log.get("R4i for -> loop + next", 0) + 1
+            done = False
+            break
+        if done:
+            return text
+
+
+def r8c_continue_outer(text, log):
+    """R8c  (lifted regions only)  `continue 'L` where the label 'L is not declared inside the region  ->  `return <epilogue>`.
+    Leaving the region to continue an ENCLOSING loop is leaving the lifted function by its normal exit with the current values of
+    the live variables — which is what R8's epilogue packs.  The epilogue is the last line of the lifted function."""
+    st = sig(lex(text))
+    lines = text.rstrip().split("\n")
+    if len(lines) < 3 or lines[-1].strip() != "}":
+        return text
+    epilogue = lines[-2].strip()
+    declared = set()
+    for i, t in enumerate(st):
+        if t.kind == "lifetime" and i + 1 < len(st) and st[i + 1].text == ":" and i + 2 < len(st) and st[i + 2].text in ("for", "while", "loop"):
+            declared.add(t.text)
+    edits = []
+    for i, t in enumerate(st):
+        if t.kind == "ident" and t.text == "continue" and i + 1 < len(st) and st[i + 1].kind == "lifetime" and st[i + 1].text not in declared:
+            if not epilogue:
+                raise RewriteError("R8c: region has no epilogue")
+            edits.append((t.start, st[i + 1].end, "return %s" % epilogue))
+    if edits:
+        log["R8c continue-outer -> region exit"] = log.get("R8c continue-outer -> region exit", 0) + len(edits)
+    return apply_edits(text, edits)
+
+
+RULES = {"R18": r18_name_for_iter, "R4v": r4v_windows_any, "R4i": r4i_for_next, "R8c": r8c_continue_outer}
